@@ -596,6 +596,49 @@ func ruleR35_2(c *Check) {
 	}
 	r.Check(okEx, f, "exclusive non-blocking lock by default", nil, "default options are not LOCK_EX|LOCK_NB")
 	r.Check(okSh, f, "shared lock only for read-only", nil, "LOCK_SH is not confined to the readOnly branch")
+	// the lock lives as long as the descriptor: the success return hands the locked descriptor to the
+	// guard and does not close it; release() closes it on every path
+	var fd *types.Var
+	for _, s := range f.Sites(selCall(w.ObjIn(ux, "Flock"))) {
+		ast.Inspect(s.(*ast.CallExpr).Args[0], func(n ast.Node) bool {
+			if id, ok := n.(*ast.Ident); ok && fd == nil {
+				if v, ok := w.Use(id).(*types.Var); ok && !v.IsField() && namedOf(v.Type()) != nil && namedOf(v.Type()).Name() == "File" {
+					fd = v
+				}
+			}
+			return true
+		})
+	}
+	r.Check(fd != nil, f, "locked descriptor identified", nil, "cannot find the *os.File passed to Flock")
+	if fd != nil {
+		for _, e := range f.successExits() {
+			rs := e.Node.(*ast.ReturnStmt)
+			r.Check(w.mentions(rs.Results[0], fd), f, "the guard keeps the locked descriptor", rs, "the success return does not hand the flocked descriptor to the guard (the lock is lost when the file is collected)")
+		}
+		closes := selPred("f.Close()", func(w *World, fn *Fn, n ast.Node) bool {
+			call, ok := n.(*ast.CallExpr)
+			if !ok || !isCallNamed(w, call, "Close") {
+				return false
+			}
+			id, ok := unparen(recvOf(call)).(*ast.Ident)
+			return ok && w.Use(id) == types.Object(fd)
+		})
+		for _, s := range f.Sites(closes) {
+			okErr := false
+			for _, g := range w.Guards(f, s) {
+				if w.errNonNil(g.Cond, g.Val) {
+					okErr = true
+				}
+			}
+			r.Check(okErr, f, "the descriptor is closed only when acquiring failed", s, "the locked descriptor is closed on a path that goes on to succeed: the lock is released at once")
+		}
+	}
+	rl := w.F("badger.directoryLockGuard.release")
+	gf := w.Field("badger.directoryLockGuard.f")
+	r.ExitsNeed(rl, "descriptor closed (lock released)", selPred("guard.f.Close()", func(w *World, fn *Fn, n ast.Node) bool {
+		call, ok := n.(*ast.CallExpr)
+		return ok && isCallNamed(w, call, "Close") && recvOf(call) != nil && w.fieldOf(recvOf(call)) == gf
+	}), 0, exitAll)
 }
 
 func ruleR35_3(c *Check) {
